@@ -7,10 +7,10 @@
   * `project w r v`  : the value the documentation promises the reader sees: shared fields
                        equal, reader-only optional fields nil, writer-only fields ignored,
                        an unknown variant in an optional field `None`,
-  * `benign w r v`   : excludes exactly the two situations in which the code as it is breaks
-                       the promise (F5: unknown `index_only` variant in an optional field,
-                       K5: tagged optional field the reader knows at an index where the
-                       writer's array has a gap `null`).
+  * `benign w r v`   : excludes exactly the situation in which the code as it is breaks the
+                       promise (K5: tagged optional field the reader knows at an index where
+                       the writer's array has a gap `null`).  (F5 — unknown `index_only`
+                       variant in an optional field — was repaired in /repo, commit 34b49ef.)
 -/
 import Minicbor.Derive
 
@@ -203,7 +203,7 @@ end
     promise — incompatible versions, ill-typed value, or an unknown variant at top level). -/
 def project (w r : FTy) (v : Val) : PRes := projTy w r v
 
-/-! ### The two situations in which the code breaks the promise (kept out by `benign`) -/
+/-! ### The situation in which the code breaks the promise (kept out by `benign`) -/
 
 /-- K5: a *tagged* optional field known only to the reader, array encoding, at an index below
     the end of the writer's array: the writer put a bare `null` there, the reader insists on the tag. -/
@@ -215,49 +215,49 @@ def k5Hit (gs fs : Fields) (writerMax : Option Nat) : Bool :=
 def piecesMax (ps : List (Piece Bytes)) : Option Nat := maxPresent ps
 
 mutual
-/-- `benignP f5 k5 w r v`: the selected hazards (F5 / K5) are not triggered anywhere in the value. -/
-def benignP (f5 k5 : Bool) : FTy → FTy → Val → Bool
-  | .option w, .option r, .some v => benignP f5 k5 w r v
-  | .vec w, .vec r, .list vs => vs.all (benignP f5 k5 w r)
+/-- `benignP k5 w r v`: the selected hazards (F5 / K5) are not triggered anywhere in the value. -/
+def benignP (k5 : Bool) : FTy → FTy → Val → Bool
+  | .option w, .option r, .some v => benignP k5 w r v
+  | .vec w, .vec r, .list vs => vs.all (benignP k5 w r)
   | .struct a fs, .struct _ gs, .struct vs =>
       if a.transparent then
         (match gs with
-         | [(_, u)] => benignOne f5 k5 fs u vs
+         | [(_, u)] => benignOne k5 fs u vs
          | _ => true)
-      else benignFields f5 k5 fs gs vs
+      else benignFields k5 fs gs vs
            && !(k5 && encOf a.enc == .array && k5Hit gs fs (piecesMax (encFields fs vs)))
-  | .enum a vs, .enum b us, .enum k fvs => benignVars f5 k5 a b vs us k fvs
+  | .enum a vs, .enum b us, .enum k fvs => benignVars k5 a b vs us k fvs
   | _, _, _ => true
 termination_by structural w => w
-def benignOne (f5 k5 : Bool) : Fields → FTy → List Val → Bool
-  | [(_, t)], u, [v] => benignP f5 k5 t u v
+def benignOne (k5 : Bool) : Fields → FTy → List Val → Bool
+  | [(_, t)], u, [v] => benignP k5 t u v
   | _, _, _ => true
 termination_by structural fs => fs
-def benignFields (f5 k5 : Bool) : Fields → Fields → List Val → Bool
+def benignFields (k5 : Bool) : Fields → Fields → List Val → Bool
   | (fa, t) :: fs, gs, v :: vs =>
       (if fa.skip then true
        else match findField gs fa.idx with
          | none => true
-         | some (_, u) => benignP f5 k5 t u v)
-      && benignFields f5 k5 fs gs vs
+         | some (_, u) => benignP k5 t u v)
+      && benignFields k5 fs gs vs
   | _, _, _ => true
 termination_by structural fs => fs
-def benignVars (f5 k5 : Bool) (a b : EAttr) : Variants → Variants → Nat → List Val → Bool
+def benignVars (k5 : Bool) (a b : EAttr) : Variants → Variants → Nat → List Val → Bool
   | [], _, _, _ => true
   | (va, fs) :: _, us, 0, fvs =>
       (match findVar us 0 va.idx with
-       | none => !(f5 && a.indexOnly)            -- F5: unknown variant of an `index_only` enum
+       | none => true
        | some (_, vb, gs) =>
            (match vb.shape, va.shape with
             | .unit, _ => true
             | _, .unit => true
-            | _, _ => benignFields f5 k5 fs gs fvs
+            | _, _ => benignFields k5 fs gs fvs
                 && !(k5 && encOf (va.enc <|> a.enc) == .array && k5Hit gs fs (piecesMax (encFields fs fvs)))))
-  | _ :: rest, us, k + 1, fvs => benignVars f5 k5 a b rest us k fvs
+  | _ :: rest, us, k + 1, fvs => benignVars k5 a b rest us k fvs
 termination_by structural vs => vs
 end
 
-/-- neither F5 nor K5 is triggered anywhere in the value. -/
-def benign (w r : FTy) (v : Val) : Bool := benignP true true w r v
+/-- K5 is not triggered anywhere in the value. -/
+def benign (w r : FTy) (v : Val) : Bool := benignP true w r v
 
 end Minicbor.Derive
